@@ -25,7 +25,8 @@
           are computed from the REWRITTEN comments: that parse_toggle is stable under the comment rewriter is not proved);
      6    format_multiline_strings = false or no multi-line literal (F6 is a counterexample otherwise);
      7    every token but the final Eof is decided by the search (F42: a line without a solution keeps its counters as read);
-     8    the second search reads the spaces_before the first one read.  For a token that continues its line this is gap_idem; for a
+     8    the second search reads the spaces_before the first one read.  For a token that continues its line in the output this is a
+          theorem (i_sp_continued: fmt_of_emit_ws, gap_idem), so format_idempotent_starts asks it of line starts only; for a
           token that starts a line in the output the second run's TokenSpacing sees the emitted indentation as the original count, and
           where the gap rule reads the original count (reads_orig: the F4 class) the results may differ, the search then measures a
           different "continue" alternative for that token and may decide otherwise.  That position — a line-start token in the output
@@ -230,14 +231,25 @@ Definition rescan_ok alnum cfg (segs segs2 : list seg) : Prop :=
 
 Definition all_false (l : list bool) : Prop := forall m, In m l -> m = false.
 
-Definition idem_hyp alnum cfg (segs segs2 : list seg) : Prop :=
+(* hypotheses 1-7 *)
+Definition idem_hyp7 alnum cfg (segs segs2 : list seg) : Prop :=
   rescan_ok alnum cfg segs segs2
   /\ no_asm (map seg_ty segs)
   /\ all_false (fm_marks segs) /\ all_false (fm_marks segs2)
   /\ no_ml_rewrite cfg segs
   /\ (forall i p, nth_error (fm_l4 alnum segs) i = Some p ->
-        decs_for i (fm_plan1 alnum cfg segs) <> [] \/ eof_set (fm_lines segs) (length segs) i (t_ty (fst p)) = true)
-  /\ sp_list (fm_l4 alnum segs2) = sp_list (fm_l4 alnum segs).
+        decs_for i (fm_plan1 alnum cfg segs) <> [] \/ eof_set (fm_lines segs) (length segs) i (t_ty (fst p)) = true).
+
+(* hypothesis 8, for every token *)
+Definition idem_hyp alnum cfg (segs segs2 : list seg) : Prop :=
+  idem_hyp7 alnum cfg segs segs2 /\ sp_list (fm_l4 alnum segs2) = sp_list (fm_l4 alnum segs).
+
+(* hypothesis 8, for the tokens that start a line in the output only (for the others it is a theorem: i_sp_continued) *)
+Definition idem_hyp_starts alnum cfg (segs segs2 : list seg) : Prop :=
+  idem_hyp7 alnum cfg segs segs2
+  /\ (forall i p p' q, nth_error (fm_l4 alnum segs) i = Some p -> nth_error (fm_l4 alnum segs2) i = Some p' ->
+        nth_error (fm_final alnum cfg segs) i = Some q -> (0 <? f_nl (snd q)) = true ->
+        f_sp (snd p') = f_sp (snd p)).
 
 (* general facts used below *)
 Lemma tokens_of_tys_gen : forall (a b : list seg) tys, length a = length b -> map t_ty (tokens_of a tys) = map t_ty (tokens_of b tys).
@@ -304,11 +316,53 @@ Proof.
   split; assumption.
 Qed.
 
+(* facts about TokenSpacing used for the tokens that continue a line *)
+Lemma map_combine_fst {A B C} (g : A -> C) : forall (a : list A) (b : list B), length a = length b ->
+  map (fun x : A * B => g (fst x)) (combine a b) = map g a.
+Proof. induction a as [|x a IH]; intros [|y b] H; cbn in H; try discriminate; [reflexivity|]. cbn [combine map fst]. rewrite IH by congruence. reflexivity. Qed.
+
+Lemma fm_l0_types sg : types (fm_l0 sg) = fm_tys sg.
+Proof.
+  unfold types, fm_l0, fm_tys. rewrite map_map. unfold ty_of. cbn [fst].
+  apply (map_combine_fst t_ty). rewrite fm_toks_length, fm_marks_length. reflexivity.
+Qed.
+
+Lemma gap_fn_bound tl tr pr o : gap_fn tl tr pr o <= N.max 1 o.
+Proof.
+  destruct (keeps_orig tl tr pr) eqn:K; [rewrite (gap_keeps_orig _ _ _ _ K); lia|].
+  pose proof (gap_le_1 tl tr pr o K). lia.
+Qed.
+
+Lemma fmt_of_ws_sp_bound ws ign : f_sp (fmt_of_ws ws ign) <= 65535.
+Proof. unfold fmt_of_ws, u16_sat. cbn [f_sp]. lia. Qed.
+
+Lemma fm_l3_of_l1 alnum sg i : nth_error (fm_l3 alnum sg) i = option_map (norm_tok alnum) (nth_error (fm_l1 sg) i).
+Proof.
+  unfold fm_l3, fm_l2, comment_formatter, lowercase_keywords. rewrite !nth_error_map.
+  destruct (nth_error (fm_l1 sg) i); reflexivity.
+Qed.
+
+(* spaces_before after TokenSpacing, token by token *)
+Lemma fm_l1_sp sg i tok f : nth_error (fm_l0 sg) i = Some (tok, f) ->
+  exists n, nth_error (fm_l1 sg) i = Some (tok, set_sp f n)
+    /\ match i with
+       | O => n = 0
+       | S j => exists tl fl, nth_error (fm_l0 sg) j = Some (tl, fl) /\ n = gap_fn (t_ty tl) (t_ty tok) (prev_real_at (fm_l0 sg) j) (f_sp f)
+       end.
+Proof.
+  intros H. unfold fm_l1. destruct i as [|j].
+  - destruct (fm_l0 sg) as [|p0 r] eqn:E; [discriminate H|]. cbn in H. injection H as ->. rewrite spacing_closed_form. cbn [nth_error fst snd].
+    exists 0. split; reflexivity.
+  - destruct (nth_error (fm_l0 sg) j) as [[tl fl]|] eqn:Ej.
+    + eexists. split; [exact (spacing_gap_local _ j tl fl tok f Ej H)|]. exists tl, fl. split; reflexivity.
+    + exfalso. apply nth_error_None in Ej. assert (S j < length (fm_l0 sg))%nat by (apply nth_error_Some; congruence). lia.
+Qed.
+
 Section Idem.
 Variable alnum : bytes -> bool.
 Variable cfg : fconfig.
 Variables segs segs2 : list seg.
-Hypothesis Hyp : idem_hyp alnum cfg segs segs2.
+Hypothesis Hyp : idem_hyp7 alnum cfg segs segs2.
 
 Let Hws : map seg_ws segs2 = glue_list (cfg_rs cfg) false (fm_final alnum cfg segs) := proj1 (proj1 Hyp).
 Let Hcs : map seg_content segs2 = map (fun p : ftoken => t_content (fst p)) (fm_final alnum cfg segs) := proj1 (proj2 (proj1 Hyp)).
@@ -317,8 +371,7 @@ Let Hnoasm : no_asm (map seg_ty segs) := proj1 (proj2 Hyp).
 Let Hm1 : all_false (fm_marks segs) := proj1 (proj2 (proj2 Hyp)).
 Let Hm2 : all_false (fm_marks segs2) := proj1 (proj2 (proj2 (proj2 Hyp))).
 Let Hml : no_ml_rewrite cfg segs := proj1 (proj2 (proj2 (proj2 (proj2 Hyp)))).
-Let Hdec := proj1 (proj2 (proj2 (proj2 (proj2 (proj2 Hyp))))).
-Let Hsp : sp_list (fm_l4 alnum segs2) = sp_list (fm_l4 alnum segs) := proj2 (proj2 (proj2 (proj2 (proj2 (proj2 Hyp))))).
+Let Hdec := proj2 (proj2 (proj2 (proj2 (proj2 Hyp)))).
 
 Lemma i_len : length segs2 = length segs.
 Proof. rewrite <- (map_length seg_ty segs2), Hty. apply map_length. Qed.
@@ -420,6 +473,75 @@ Proof.
       destruct q as [tq fq]. cbn [fst snd] in *. rewrite (fmt_of_emit_ws crlf tabs iw cw mb tq fq false) by (rewrite Iq; exact Ip). reflexivity.
 Qed.
 
+(* hypothesis 8 holds by itself for a token that continues its line in the output: the second TokenSpacing reads the count the first
+   one wrote (FormattingData::from of the emitted blanks) and the gap rule is idempotent *)
+Lemma i_sp_continued i p p' q :
+  nth_error (fm_l4 alnum segs) i = Some p -> nth_error (fm_l4 alnum segs2) i = Some p' ->
+  nth_error (fm_final alnum cfg segs) i = Some q -> (0 <? f_nl (snd q)) = false ->
+  eof_set (fm_lines segs) (length segs) i (t_ty (fst p)) = false ->
+  f_sp (snd p') = f_sp (snd p).
+Proof.
+  intros Hp Hp' Hq Hnl He.
+  assert (Hi : (i < length segs)%nat) by (rewrite <- (fm_l4_length alnum segs); apply nth_error_Some; congruence).
+  destruct (i_l0 i Hi) as (tok & f & tok' & f' & q0 & mb & H0 & H0' & Hf & Hf' & Hty' & Hq0 & Hc & Hg).
+  assert (q0 = q) by congruence. subst q0.
+  destruct (fm_l1_sp segs i tok f H0) as (n & H1 & Hn). destruct (fm_l1_sp segs2 i tok' f' H0') as (n' & H1' & Hn').
+  (* the vectors in front of the search at i *)
+  pose proof (fm_l3_of_l1 alnum segs i) as H3. rewrite H1 in H3. cbn [option_map] in H3.
+  pose proof (fm_l3_of_l1 alnum segs2 i) as H3'. rewrite H1' in H3'. cbn [option_map] in H3'.
+  pose proof (fm_l4_nth alnum segs i _ H3) as H4. pose proof (fm_l4_nth alnum segs2 i _ H3') as H4'.
+  rewrite i_lines, i_len, !norm_tok_ty in H4'. rewrite !norm_tok_ty in H4. cbn [fst] in H4, H4'. rewrite Hty' in H4'.
+  assert (Ety : t_ty (fst p) = t_ty tok).
+  { pose proof (eq_trans (eq_sym Hp) H4) as E. injection E as ->. destruct (eof_set _ _ _ _); [unfold eof_fmt; cbn [fst]|]; apply norm_tok_ty. }
+  rewrite Ety in He. rewrite He in H4, H4'.
+  assert (Ep : p = norm_tok alnum (tok, set_sp f n)) by congruence. assert (Ep' : p' = norm_tok alnum (tok', set_sp f' n')) by congruence.
+  assert (Sp : f_sp (snd p) = n) by (rewrite Ep, norm_tok_snd; destruct f; reflexivity).
+  assert (Sp' : f_sp (snd p') = n') by (rewrite Ep', norm_tok_snd; destruct f'; reflexivity).
+  rewrite Sp, Sp'. destruct i as [|j]; [congruence|].
+  destruct Hn as (tl & fl & Ej & ->). destruct Hn' as (tl' & fl' & Ej' & ->).
+  (* same types on the left, same previous real token *)
+  assert (Etl : t_ty tl' = t_ty tl).
+  { pose proof (map_nth_error ty_of j _ Ej) as M. pose proof (map_nth_error ty_of j _ Ej') as M'. fold (types (fm_l0 segs)) in M. fold (types (fm_l0 segs2)) in M'.
+    rewrite fm_l0_types in M, M'. rewrite i_tys, M in M'. unfold ty_of in M'. cbn [fst] in M'. congruence. }
+  assert (Epr : prev_real_at (fm_l0 segs2) j = prev_real_at (fm_l0 segs) j) by (unfold prev_real_at; rewrite !fm_l0_types, i_tys; reflexivity).
+  rewrite Etl, Epr, Hty'.
+  (* the count the second run reads is the count the first run wrote *)
+  set (g := gap_fn (t_ty tl) (t_ty tok) (prev_real_at (fm_l0 segs) j) (f_sp f)) in *.
+  assert (Hg65 : g <= 65535).
+  { destruct (fm_l0_nth_inv segs (S j) tok f H0) as (_ & m & _ & ->). pose proof (fmt_of_ws_sp_bound (t_ws tok) m).
+    pose proof (gap_fn_bound (t_ty tl) (t_ty tok) (prev_real_at (fm_l0 segs) j) (f_sp (fmt_of_ws (t_ws tok) m))). subst g. lia. }
+  assert (Hq' : snd q = mkFmt (f_ignored (snd p)) 0 0 0 g).
+  { pose proof Hq as Hq1. rewrite (proj1 (fm_final_phase1 alnum cfg segs Hml)), zls_nth, apply_plan_nth, Hp in Hq1. cbn [option_map fst snd] in Hq1.
+    injection Hq1 as <-. cbn [snd] in *. rewrite zf_nl in Hnl.
+    destruct (Hdec (S j) p Hp) as [Hd|Hd]; [|rewrite Ety, He in Hd; discriminate].
+    destruct (exists_last Hd) as (ds & d & Hds). rewrite Hds in *. rewrite last_decision_nl in Hnl.
+    destruct d as [first ind cont|]; [discriminate Hnl|]. rewrite fold_left_app. cbn [fold_left apply_decision]. unfold zf. cbn [f_nl N.ltb N.compare].
+    rewrite fold_dec_ign, fold_dec_sp, Sp. reflexivity. }
+  assert (Hf'sp : f_sp f' = g).
+  { rewrite Hg. destruct (cfg_rs_new cfg) as (crlf & tabs & iw & cw & Ers). rewrite Ers. destruct q as [tq fq]. cbn [snd] in Hq'. subst fq.
+    assert (Ip : f_ignored (snd p) = false) by (rewrite Ep, norm_tok_snd; destruct f; exact Hf).
+    rewrite (fmt_of_emit_ws crlf tabs iw cw mb tq _ false) by (cbn [f_ignored]; exact Ip). cbn [f_sp f_ind f_cont]. unfold u16_sat. lia. }
+  rewrite Hf'sp. apply gap_idem.
+Qed.
+
+(* so hypothesis 8 for the line starts gives it for every token *)
+Lemma i_sp_from_starts :
+  (forall i p p' q, nth_error (fm_l4 alnum segs) i = Some p -> nth_error (fm_l4 alnum segs2) i = Some p' ->
+     nth_error (fm_final alnum cfg segs) i = Some q -> (0 <? f_nl (snd q)) = true -> f_sp (snd p') = f_sp (snd p)) ->
+  sp_list (fm_l4 alnum segs2) = sp_list (fm_l4 alnum segs).
+Proof.
+  intros Hst. apply list_eq_nth. intros i. unfold sp_list. rewrite !nth_error_map.
+  destruct (nth_error (fm_l4 alnum segs) i) as [p|] eqn:E.
+  - destruct (i_l4 i p E) as (p' & q & mb & H' & Hq & _ & _ & _ & _ & _ & Heq & _). rewrite H'. cbn [option_map]. f_equal.
+    destruct (eof_set (fm_lines segs) (length segs) i (t_ty (fst p))) eqn:Ee; [rewrite (Heq eq_refl); reflexivity|].
+    destruct (0 <? f_nl (snd q)) eqn:Enl; [exact (Hst i p p' q E H' Hq Enl)|exact (i_sp_continued i p p' q E H' Hq Enl Ee)].
+  - apply nth_error_None in E. rewrite fm_l4_length in E.
+    assert (E' : nth_error (fm_l4 alnum segs2) i = None) by (apply nth_error_None; rewrite fm_l4_length, i_len; exact E).
+    rewrite E'. reflexivity.
+Qed.
+
+Hypothesis Hsp : sp_list (fm_l4 alnum segs2) = sp_list (fm_l4 alnum segs).
+
 Lemma i_sp i p p' : nth_error (fm_l4 alnum segs) i = Some p -> nth_error (fm_l4 alnum segs2) i = Some p' -> f_sp (snd p') = f_sp (snd p).
 Proof.
   intros H H'. pose proof (f_equal (fun l => nth_error l i) Hsp) as E. cbn beta in E. unfold sp_list in E.
@@ -483,11 +605,25 @@ Theorem format_idempotent alnum cfg s out :
   format_model alnum cfg out = inl out.
 Proof.
   intros H Hh. apply format_model_spec in H. destruct H as (segs & Hl & Hp & Hc & Hw & ->).
-  destruct (Hh segs Hl) as (segs2 & Hl2 & Hyp). apply format_model_spec. exists segs2.
+  destruct (Hh segs Hl) as (segs2 & Hl2 & Hyp & Hsp). apply format_model_spec. exists segs2.
   split; [exact Hl2|]. split; [unfold fm_parse_ok; rewrite (i_parse alnum cfg segs segs2 Hyp); exact Hp|].
   split; [unfold fm_conddir_ok; rewrite (i_tys alnum cfg segs segs2 Hyp), (i_parse alnum cfg segs segs2 Hyp); exact Hc|].
-  split; [unfold fm_wrap_ok; rewrite (i_wrap_err alnum cfg segs segs2 Hyp); exact Hw|].
-  symmetry. apply i_out, Hyp.
+  split; [unfold fm_wrap_ok; rewrite (i_wrap_err alnum cfg segs segs2 Hyp Hsp); exact Hw|].
+  symmetry. apply i_out; assumption.
+Qed.
+
+(* the same with hypothesis 8 asked of the tokens that start a line in the output only *)
+Lemma idem_hyp_of_starts alnum cfg segs segs2 : idem_hyp_starts alnum cfg segs segs2 -> idem_hyp alnum cfg segs segs2.
+Proof. intros [H7 Hst]. split; [exact H7|]. exact (i_sp_from_starts alnum cfg segs segs2 H7 Hst). Qed.
+
+Theorem format_idempotent_starts alnum cfg s out :
+  format_model alnum cfg s = inl out ->
+  (forall segs, lex_segments s = Some segs ->
+     exists segs2, lex_segments (fm_out alnum cfg segs) = Some segs2 /\ idem_hyp_starts alnum cfg segs segs2) ->
+  format_model alnum cfg out = inl out.
+Proof.
+  intros H Hh. apply (format_idempotent alnum cfg s out H). intros segs Hl. destruct (Hh segs Hl) as (segs2 & Hl2 & Hs).
+  exists segs2. split; [exact Hl2|apply idem_hyp_of_starts, Hs].
 Qed.
 
 (* ------------------------------------------------------------------ *)
@@ -549,13 +685,13 @@ Proof.
   apply andb_true_iff in H. destruct H as [H5 H]. apply andb_true_iff in H. destruct H as [H6 H]. apply andb_true_iff in H. destruct H as [H7 H].
   apply andb_true_iff in H. destruct H as [H8 _].
   assert (Hb : forall x y, bytes_eqb x y = true -> x = y) by (intros x y E; apply bytes_eqb_eq, E).
+  split; [|apply (list_eqb_eq N.eqb); [intros x y E; apply N.eqb_eq, E|exact H8]].
   split; [split; [exact (list_eqb_eq _ Hb _ _ H1)|split; [exact (list_eqb_eq _ Hb _ _ H1')|]]|].
   { apply (list_eqb_eq RawTokenType_eqb); [intros x y E; apply RawTokenType_eqb_eq, E|exact H2]. }
   split; [apply not_asmb_ok, H3|]. split; [apply forallb_negb_all_false, H4|]. split; [apply forallb_negb_all_false, H5|].
   split.
   { apply orb_true_iff in H6. destruct H6 as [H6|H6]; [left; destruct (c_fms cfg); [discriminate|reflexivity]|right].
     intros tok Hin. rewrite forallb_forall in H6. specialize (H6 tok Hin). apply negb_true_iff in H6. exact H6. }
-  split; [|apply (list_eqb_eq N.eqb); [intros x y E; apply N.eqb_eq, E|exact H8]].
   intros i p Hp. assert (Hi : (i < length segs)%nat) by (rewrite <- (fm_l4_length alnum segs); apply nth_error_Some; congruence).
   assert (Hml : length (decided_marks alnum cfg segs) = length segs) by (unfold decided_marks; rewrite marks_fold_length, map_length; reflexivity).
   destruct (nth_error (decided_marks alnum cfg segs) i) as [b|] eqn:Eb; [|apply nth_error_None in Eb; lia].
@@ -593,5 +729,6 @@ Proof.
 Qed.
 
 Print Assumptions format_idempotent.
+Print Assumptions format_idempotent_starts.
 Print Assumptions idem_hypb_ok.
 Print Assumptions format_idempotent_checked.
